@@ -980,11 +980,31 @@ impl Log {
 			let count = min(max_count, queue.len());
 			queue.drain(0..count).collect()
 		};
-		for (id, ref mut file) in cleaned.iter_mut() {
+		let truncate = |id: u32, file: &mut std::fs::File| -> Result<()> {
 			log::debug!(target: "parity-db", "Cleaned: {}", id);
 			try_io!(file.rewind());
 			try_io!(file.set_len(0));
 			file.sync_all().map_err(Error::Io)?;
+			Ok(())
+		};
+		let mut failed = None;
+		for (i, (id, ref mut file)) in cleaned.iter_mut().enumerate() {
+			if let Err(e) = truncate(*id, file) {
+				failed = Some((i, e));
+				break
+			}
+		}
+		if let Some((i, e)) = failed {
+			// Logs that could not be truncated stay queued, in order. Forgetting them here would
+			// leave their records on disk while newer logs are cleaned later on (shutdown in error
+			// state does that), and the next open would replay old records over newer data.
+			let mut queue = self.cleanup_queue.write();
+			for entry in cleaned.drain(i..).rev() {
+				queue.push_front(entry);
+			}
+			drop(queue);
+			self.log_pool.write().extend(cleaned);
+			return Err(e)
 		}
 		// Move cleaned logs back to the pool
 		let mut pool = self.log_pool.write();
